@@ -27,13 +27,13 @@ ImpSpec(mode, j) ==
     [] mode = "selo" -> [mode |-> "list", list |-> {DName(j)} \cup (IF j = 1 THEN {"mp"} ELSE {})]
 
 (* parameters of module i: [defp, expp, expmp, imps: sequence of modes for modules 1..i-1] *)
-(* quick tier, K = 3: a sample -- p exported iff defined, modes none/all, the top module uses one mode for all *)
+(* quick tier, K = 3: a sample -- p exported iff defined, modes none/all, module 3 and the top module use one mode for all *)
 Sample == Tier = "quick" /\ K = 3
 Params(i) ==
   { [defp |-> dp, expp |-> ep, expmp |-> em, imps |-> im] :
       dp \in BOOLEAN, ep \in BOOLEAN, em \in (IF i = 1 /\ K = 2 THEN BOOLEAN ELSE {i = 1}),
-      im \in (IF Sample THEN (IF i = K + 1 THEN {[j \in 1..(i - 1) |-> md] : md \in {"none", "all"}}
-                                           ELSE [1..(i - 1) -> {"none", "all"}])
+      im \in (IF Sample THEN (IF i >= K THEN {[j \in 1..(i - 1) |-> md] : md \in {"none", "all"}}
+                                       ELSE [1..(i - 1) -> {"none", "all"}])
               ELSE [1..(i - 1) -> Modes]) }
 
 ParamOk(i, pr) == /\ pr.expp => pr.defp
@@ -66,8 +66,14 @@ SitesOf(i) ==
              [] w = 5 -> [ctx |-> i, label |-> "n", n |-> n, goal |-> QualG(N, MetaG("mp", P))]]
   \o [n \in 1..K |-> [ctx |-> i, label |-> "e", n |-> n, goal |-> PredG(DName(n))]]
 
+(* The arguments of a meta-predicate call are module-expanded when the calling clause is compiled, from the   *)
+(* meta_predicate declarations known at that moment (src/loader.pl expand_module_names, which asks             *)
+(* predicate_property(Module:Goal, meta_predicate(_))).  Modules are loaded in layout order, so the site        *)
+(* N:mp(p(X)) is generated only for N loaded no later than the caller; for the unqualified mp(..) sites the     *)
+(* declaration always comes from an earlier module through the import.                                          *)
+KeepSite(s) == s.label = "n" => s.n <= s.ctx
 RECURSIVE AllSites(_)
-AllSites(i) == IF i > K + 1 THEN <<>> ELSE SitesOf(i) \o AllSites(i + 1)
+AllSites(i) == IF i > K + 1 THEN <<>> ELSE SelectSeq(SitesOf(i), KeepSite) \o AllSites(i + 1)
 Sites == AllSites(1) \o << [ctx |-> K + 1, label |-> "z", n |-> 0, goal |-> QualG("nomod", P)] >>
 
 VARIABLE st
